@@ -35,4 +35,14 @@ def ctorOk (F : MarkerFacts) (rSend rSync : Bool) : Bool :=
 def accepted (F : MarkerFacts) (sync : Bool) (dSend dSync rSend rSync : Bool) : Bool :=
   ctorOk F rSend rSync && handleOk F sync dSend dSync
 
+/-- a lazy text view `SyntaxText<'_, '_, I, S, D>` is a plain struct of a `&SyntaxNode<S, D>` and a `&I` (no explicit
+    marker impl): it may be sent or shared exactly when the node handle and the resolver may be *shared* -/
+def textOk (F : MarkerFacts) (dSend dSync rSync : Bool) : Bool :=
+  handleOk F true dSend dSync && rSync
+
+/-- the kind type `S` is never stored in a tree: a handle over a kind type without the auto traits (or over any
+    `S: Syntax` in a generic function) is judged by `D` alone, unless the marker impls constrain `S` -/
+def kindFreeOk (F : MarkerFacts) (constrainS : Bool) (sync : Bool) (dSend dSync : Bool) : Bool :=
+  !constrainS && handleOk F sync dSend dSync
+
 end Cst
